@@ -173,8 +173,11 @@ CHECKS["C07"] = dict(
     text="Proved on the aggregation model: needs_correlation_iff (the decision logic stated outright), ready_at_once, withheld_at_first, "
          "update_ready, withheld_until_both (for ANY sequence and multiplicity of source- and destination-node records the flow is ready iff a "
          "record from the other node than the first has arrived), merged_complete (every correlate field non-empty on either side is non-empty in "
-         "the merged record and equals one of the two) and correlating_update_fills; that only ready flows reach the callback and the retry / drop "
-         "bookkeeping are the scan theorems of C06. All S/D arrival orders up to length 5 x 8 flow kinds x field-emptiness patterns x scan "
+         "the merged record and equals one of the two) and correlating_update_fills; retries_bounded (in every reachable state a held flow has at "
+         "most MaxRetries retries), unready_due_flow_retried_or_dropped and uncorrelated_flow_dropped_after_bounded_retries / "
+         "reachable_uncorrelated_flow_dropped (an uncorrelated flow that receives no further record is retried exactly MaxRetries - r times and "
+         "dropped by the next due scan, never handed to the callback; other flows and their records in between); that only ready flows reach the "
+         "callback is callback_only_when_due of C06. All S/D arrival orders up to length 5 x 8 flow kinds x field-emptiness patterns x scan "
          "placements are run on the real AggregationProcess under the virtual clock; Ipfix.C07.checkShown is evaluated on every exported and "
          "dumped record.",
     design="4 (C07)",
